@@ -236,6 +236,7 @@ def passthrough_ok(a, b):
 
 def run_line(state, sx):
     import pyg_base
+    W.begin_line(sx)
     op, args = sx[1], sx[2:]
     tree = dec_tree(args[0])
     before = snapshot_tree(tree)
